@@ -137,7 +137,12 @@ class lldp (packet_base):
     else:
       self.msg('(lldp tlv parse) warning unknown tlv type (%u)'
                % (type,))
-      self.tlvs.append(unknown_tlv(array[0: 2 + length]))
+      try:
+        self.tlvs.append(unknown_tlv(array[0: 2 + length]))
+      except Exception:
+        self.msg('(lldp tlv parse) warning malformed TLV of type %u'
+                 % (type,))
+        return
       return 2 + length
 
   def parse (self, raw):
@@ -354,8 +359,7 @@ class chassis_id (simple_tlv):
     return struct.pack("!B", self.subtype) + self.id
 
   def __str__ (self):
-    if self.subtype == chassis_id.SUB_MAC:
-      assert len(self.id) == 6
+    if self.subtype == chassis_id.SUB_MAC and len(self.id) == 6:
       id_str = str(EthAddr(self.id))
     else:
       id_str = ":".join(["%02x" % (x,) for x in self.id])
@@ -397,8 +401,7 @@ class port_id (simple_tlv):
     self.id = data[1:]
 
   def __str__ (self):
-    if self.subtype == chassis_id.SUB_MAC:
-      assert len(self.id) == 6
+    if self.subtype == chassis_id.SUB_MAC and len(self.id) == 6:
       id_str = str(EthAddr(self.id))
     else:
       id_str = ":".join(["%02x" % (x,) for x in self.id])
